@@ -13,7 +13,7 @@ RULE = ("Case = generated probe metadata (3A/3B1/3B2/NP2.1/NP2.4/NPultra/nidq, A
         "snsGeomMap, per-channel NP1 gains) x int16 content seed (full range incl. extremes) x bin/cbin (chunk of a few "
         "dozen samples) x sort on/off x 24-40 (sample selector, channel selector, entry point) triples. Oracle: "
         "sample2volts == independent calibration (rtol 1e-6); every read == NumPy indexing of float32(D[:, order]) * "
-        "s2v[order], bit for bit, same shape and dtype; geometry[k][i] == site of on-disk channel order[i]. "
+        "s2v[order], bit for bit, same shape and dtype; geometry[k][i] == site of on-disk channel order[i]. One case in twelve is a flat int16 binary without metadata opened with explicit nc/ns/fs(/s2v/nsync) or, for 384/385 channels, with nothing (layout guessed from the size): default factor 2.34375e-06, sync unscaled. "
         "Non-trivial = non-identity channel order AND (non-uniform NP1 gain vector, or NP2 whose gain is fixed) AND at "
         "least one slice selector with |step|>1 or a negative bound. Distinct = distinct case hash.")
 ASSUMPTIONS = ["(non-empty list, non-empty list) selector pairs are not compared: NumPy would index point-wise, the reader "
@@ -61,8 +61,36 @@ def _case(draw):
     return case
 
 
+@st.composite
+def _flat_case(draw):
+    """A flat int16 binary without metadata file, opened as the Reader docstring describes: explicit nc / ns / fs (and
+    optionally s2v, nsync), or nothing at all for a 384- or 385-channel file (the layout is then guessed from the size)."""
+    auto = draw(st.booleans())
+    nc = draw(st.sampled_from([384, 385])) if auto else draw(st.sampled_from([1, 2, 5, 16, 17, 384, 385]))
+    ns = draw(st.integers(1, 40 if nc >= 384 else 300))
+    case = {"flat": True, "auto": auto, "nc": nc, "ns": ns, "content_seed": draw(st.integers(0, 2 ** 32 - 1)),
+            "nsync": 1 if (auto and nc == 385) else (0 if auto else draw(st.sampled_from([0, 1]))),
+            "s2v": None if auto else draw(st.sampled_from([None, None, 4.6875e-06, 1.0, 0.5])),
+            "fs": 30000 if auto else draw(st.sampled_from([30000, 2500, 1000]))}
+    if case["nsync"] >= nc:
+        case["nsync"] = 0
+    # documented heuristic of the constructor: a file whose size is an even multiple of 385 (and not of 384) int16 words
+    # is taken to carry one sync channel unless told otherwise - and 0 cannot be told. Such files get their sync channel.
+    size = ns * nc * 2
+    if case["nsync"] == 0 and size / 384 % 2 != 0 and size / 385 % 2 == 0:
+        case["nsync"] = 1
+    ops = []
+    for _ in range(draw(st.integers(8, 16))):
+        ep = draw(st.sampled_from(["getitem2", "getitem2", "getitem1", "read"]))
+        # sr[item] with a single list is ambiguous with the (samples, channels) pair: only slices and integers there
+        n = draw(st.one_of(sel.st_slice(ns), sel.st_int(ns))) if ep == "getitem1" else draw(sel.st_sample_sel(ns))
+        ops.append({"ep": ep, "n": n, "c": draw(sel.st_channel_sel(nc))})
+    case["ops"] = ops
+    return case
+
+
 def strategy(tier):
-    return _case()
+    return st.one_of(*([_case()] * 11 + [_flat_case()]))
 
 
 def _neg_step(s):
@@ -76,7 +104,67 @@ def known_cbin_negative_step(case, f):
 KNOWN = {"cbin_negative_step": known_cbin_negative_step}
 
 
+S2V_AP = 2.34375e-06  # documented default conversion factor of a flat int16 recording (NP1 AP band: 0.6 / 512 / 500)
+
+
+def _run_flat(case, ctx):
+    sg = sut.spikeglx()
+    nc, ns, nsync = case["nc"], case["ns"], case["nsync"]
+    D = rec.make_data(ns, nc, case["content_seed"], "full", nsync=nsync)
+    ctx.label("flat", "flat_auto" if case["auto"] else "flat_explicit", f"flat_nsync{nsync}")
+    with rec.scratch_dir(ctx) as d:
+        f = d / "flat_recording.bin"
+        D.tofile(f)
+        kw = {} if case["auto"] else dict(nc=nc, ns=ns, fs=case["fs"], nsync=nsync or None)
+        if case.get("s2v") is not None:
+            kw["s2v"] = case["s2v"]
+        sr = ctx.call("C01.open_flat", sg.Reader, f, **kw)
+        if sr is ctx.CRASH:
+            return
+        try:
+            if not ctx.check(sr.shape == (ns, nc) and sr.nsync == nsync and sr.fs == case["fs"], "C01.flat_layout",
+                             lambda: f"flat reader: shape {sr.shape} nsync {sr.nsync} fs {sr.fs}, expected {(ns, nc)} {nsync} {case['fs']}"):
+                return
+            es2v = np.ones(nc) * (case.get("s2v") or S2V_AP)
+            if nsync:
+                es2v[-nsync:] = 1
+            s2v = np.asarray(sr.sample2volts)
+            if not ctx.check(s2v.shape == es2v.shape and np.allclose(s2v, es2v, rtol=1e-9, atol=0), "C01.sample2volts",
+                             lambda: f"flat reader: sample2volts {s2v[:3]}..{s2v[-1:]} expected {es2v[:3]}..{es2v[-1:]}"):
+                return
+            A = D.astype(np.float32)
+            A *= s2v
+            ctx.nontrivial = ctx.nontrivial or nsync > 0
+            for i, op in enumerate(case["ops"]):
+                n, c = sel.decode(op["n"]), sel.decode(op["c"])
+                if sel.is_listlike(op["n"]) and sel.is_listlike(op["c"]) and len(op["n"]["v"]) and len(op["c"]["v"]):
+                    continue
+                try:
+                    exp, exp_err = (A[n][..., c] if op["ep"] != "getitem1" else A[n]), None
+                except IndexError as e:
+                    exp, exp_err = None, e
+                fn = {"getitem1": lambda: sr[n], "getitem2": lambda: sr[n, c],
+                      "read": lambda: sr.read(nsel=n, csel=c, sync=False)}[op["ep"]]
+                if exp_err is not None:
+                    got = ctx.call("C01.read_oob", fn, expect=(IndexError,))
+                    if got is not ctx.CRASH:
+                        ctx.check(isinstance(got, IndexError), "C01.oob_no_error", lambda: f"flat op {i} {op}: NumPy raises IndexError, reader returned data")
+                    continue
+                got = ctx.call("C01.values", fn)
+                if got is ctx.CRASH:
+                    continue
+                ctx.check(isinstance(got, np.ndarray) and got.dtype == np.float32 and got.shape == exp.shape and np.array_equal(got, exp),
+                          "C01.values", lambda: f"flat op {i} {op}: got shape {getattr(got, 'shape', None)}, expected {exp.shape}; {_first_mismatch(got, exp)}")
+        finally:
+            try:
+                sr.close()
+            except Exception:  # noqa
+                pass
+
+
 def run_case(case, ctx):
+    if case.get("flat"):
+        return _run_flat(case, ctx)
     sg = sut.spikeglx()
     spec = case["spec"]
     nc, ns = gm.n_channels(spec), spec["ns"]
